@@ -165,6 +165,10 @@ class Module:
             self.tree = ast.parse(src, filename=path)
         except SyntaxError as exc:
             raise AnalysisError(f'{path}: does not parse: {exc}') from exc
+        # private helpers the pinned tree does not have are inlined into their callers (sa/inline.py): the anchored
+        # functions then read as they did before such a helper was extracted
+        from .inline import normalise
+        self.tree, self.inlined = normalise(self.tree, path)
         self.funcs: Dict[str, Func] = {}
         self.classes: Dict[str, ClassInfo] = {}
         # local name -> (module name, attribute or None)
